@@ -124,10 +124,22 @@ def _gen_item(rng, i):
         body = ber.enc_pdu(pdu)
         _tag, c0, c1 = ber.read_tlv(body, 0, len(body))
         content = body[c0:c1]
-        if rng.randrange(2) == 0:
+        how = rng.randrange(3)
+        if how == 0:
             bad = content[: rng.randint(0, max(len(content) - 1, 0))]
-        else:
+        elif how == 1:
             bad = bytes(rng.choice((0xFF, 0x9F, 0x1F)) for _ in range(rng.choice((1, 3, 9, 30))))
+        else:
+            # every header is fine; ONE value is not: an OBJECT IDENTIFIER whose last
+            # sub-identifier never ends (X.690 8.19.2: the last octet of a sub-identifier
+            # has bit 8 clear)
+            broken = rng.choice((b"\x06\x03\xff\xff\xff", b"\x06\x02\x2b\x81", b"\x06\x05\x2b\x06\x01\x84\x80"))
+            vbs2 = list(vbs)
+            at = rng.randrange(1, len(vbs2)) if len(vbs2) > 2 and rng.random() < 0.7 else 1
+            vbs2[at] = (vbs2[at][0], ("rawtlv", broken))
+            body2 = ber.enc_pdu(dict(pdu, varbinds=vbs2))
+            _t2, d0, d1 = ber.read_tlv(body2, 0, len(body2))
+            bad = body2[d0:d1]
         data = ber.tlv(0x30, ber.enc_integer(1) + ber.enc_octets(b"public") + ber.tlv(0xA7, bad))
         return {"cls": "badbody", "src": src, "data": data, "vbs": None, "i": i}
     if r < 0.93:
